@@ -114,12 +114,53 @@ def setContent (m : Msg) (v : Option Bytes) : Msg :=
     if hdrHas m.headers transferEncoding then { m with content := some b }
     else { m with content := some b, headers := hdrSet m.headers contentLength (decimal b.length) }
 
+/-- MultiDict.get_all -/
+def hdrGetAll (h : Fields) (key : Bytes) : List Bytes :=
+  h.filterMap fun kv => if kconv kv.1 = kconv key then some kv.2 else none
+
+/-- `", ".join(values)` (Headers._reduce_values) -/
+def joinComma : List Bytes → Bytes
+  | [] => []
+  | [v] => v
+  | v :: rest => v ++ [0x2c, 0x20] ++ joinComma rest
+
+/-- `headers.get(key)`: all values of the key folded with ", ", or None -/
+def hdrGet (h : Fields) (key : Bytes) : Option Bytes :=
+  match hdrGetAll h key with
+  | [] => none
+  | vs => some (joinComma vs)
+
+def contentEncoding : Bytes :=
+  [0x63,0x6f,0x6e,0x74,0x65,0x6e,0x74,0x2d,0x65,0x6e,0x63,0x6f,0x64,0x69,0x6e,0x67]
+
+/-- outcome of `encoding.encode(value, ce or "identity")` for a bytes value: the encoded bytes or ValueError
+    (the codec libraries themselves are C31's parameter; a TypeError escapes before anything is changed) -/
+inductive EncRes where
+  | ok (x : Bytes) | verr
+  deriving DecidableEq
+
+/-- Message.set_content in full (http.py), for a message with or without a Content-Encoding header:
+      ce = headers.get("content-encoding")
+      try: raw_content = encode(value, ce or "identity")
+      except ValueError: del headers["content-encoding"]; raw_content = value
+      if "transfer-encoding" not in headers: headers["content-length"] = str(len(raw_content)) -/
+def setContentCE (m : Msg) (v : Option Bytes) (r : EncRes) : Msg :=
+  match v with
+  | none => { m with content := none }
+  | some b =>
+    let m1 : Msg := match r with
+      | .ok x => { m with content := some x }
+      | .verr => { m with content := some b, headers := hdrDel m.headers contentEncoding }
+    if hdrHas m1.headers transferEncoding then m1
+    else { m1 with headers := hdrSet m1.headers contentLength (decimal (m1.content.getD []).length) }
+
 -- ------------------------------------------------------------------------------------------ edits
 inductive MsgEdit where
   | atom (k : Nat) (a : A)                 -- request.path = …, response.status_code = …
   | hset (k v : Bytes) | hdel (k : Bytes) | hadd (k v : Bytes)
   | hrep (h : Fields)                      -- .headers = Headers(…) (a new, possibly EMPTY, header object)
-  | content (v : Option Bytes)             -- .content = … (set_content)
+  | content (v : Option Bytes)             -- .content = … (set_content) on a message without Content-Encoding
+  | contentCE (v : Option Bytes) (r : EncRes)   -- .content = … in general; r = what encoding.encode answered
   | tset (t : Option Fields)               -- .trailers = …
   | thset (k v : Bytes)                    -- .trailers[k] = v (only if trailers exist)
 
@@ -130,6 +171,7 @@ def MsgEdit.apply : MsgEdit → Msg → Msg
   | .hadd k v, m => { m with headers := hdrAdd m.headers k v }
   | .hrep h, m => { m with headers := h }
   | .content v, m => setContent m v
+  | .contentCE v r, m => setContentCE m v r
   | .tset t, m => { m with trailers := t }
   | .thset k v, m => { m with trailers := m.trailers.map fun t => hdrSet t k v }
 
